@@ -6,7 +6,8 @@ PROP = {
     "rule": "eparse: exhaustive token soups of length<=3/4 over 23 lexemes (as expressions), grammar-generated expressions and "
             "assign/for/cycle/when statements with random spacing, mutants and random soups; compared with the model: accept / reject "
             "of an expression, and for an accepted statement the assigned variable, the cycle group and values, the loop variable "
-            "and which modifiers are present, the number of when values - not the expression tree; render: harvested test templates, "
+            "and which modifiers are present, the number of when values - not the expression tree; render: harvested test templates, 299 whole templates about times ({{ t }}, t | date: f, date on date "
+            "strings, times inside containers), "
             "every sequence of <=3 (quick) / 4 (thorough) pieces of a 31-piece alphabet (bare, inside a loop, inside an if) and "
             "grammar-generated templates "
             "with generated environments, through ParseTemplateLocation+Render; exprs (every case a render line; oracles on the real "
